@@ -251,3 +251,56 @@ prop('C11',
      'exactly-once and children-before-parents.',
      level_note='Shapes beyond the bound are sampled (random, chains). ASan detects use-after-free only while the block '
      'sits in quarantine (default 256 MB, far larger than these trees).')
+
+# ----------------------------------------------------------------- C13 / C14
+WAV = [R + 'wavheader.c', R + 'pack.c'] + UTIL
+prop('C13',
+     'rt: (format, channels, rate, frames) tuples - formats cycled, channels from {1,2,3,6,8,255,1000,16383,32767} or '
+     'random up to the 16-bit block-align limit, rates from the usual set or random within the byte-rate window, '
+     'frames in {0,1,2,1000,max that fits,random}, the frame count set once or changed - on a structure pre-filled '
+     'with zeros, 0xff, random bytes, a valid header of another format, or an extensible header; rt:bigrate: the same '
+     'with byte rates in [2^31,2^32) in a build without UBSan signed-overflow; dec: hand-built accepted byte strings '
+     '(PCM fmt 16/17, float+fact, extensible with the 22-byte extension, fmt>=18 with skipped extension bytes, '
+     'extensible+fact) decoded then re-encoded. Non-trivial = non-float format or dirty prior contents or non-zero '
+     'frames (rt), extensible/skipped-extension strings (dec); distinct by tuple / content hash.',
+     [Stage('rt', ['harness/wav.c'], WAV, preset='asan', nproc=16,
+            args={'quick': ['--extra', 'rt'], 'thorough': ['--extra', 'rt']},
+            needs_min={'tuples': 100000, 'tuples_on_dirty_struct': 10000}),
+      Stage('rt-bigrate', ['harness/wav.c'], WAV, preset='asan-nosio', nproc=8,
+            args={'quick': ['--extra', 'rt:bigrate', '--cases', '100000'], 'thorough': ['--extra', 'rt:bigrate', '--cases', '2000000']},
+            needs_min={'tuples': 10000}),
+      Stage('dec', ['harness/wav.c'], WAV, preset='asan', nproc=16,
+            args={'quick': ['--extra', 'dec'], 'thorough': ['--extra', 'dec']},
+            needs_min={'decode_first_accepted': 50000}),
+      Stage('rt-clang-O2', ['harness/wav.c'], WAV, preset='asan-O2', cc='clang', nproc=16, tiers=('thorough',),
+            args={'thorough': ['--extra', 'rt', '--cases', '2000000']})],
+     assumptions=['sizes fit in 32 bits: block alignment <= 65535, data size + header <= 2^32-1, byte rate <= 2^32-1 '
+                  '(rates are int, so <= 2^31-1)',
+                  'structures are compared field by field, padding ignored'],
+     engine='E1', technique='runtime monitoring: round-trip and arithmetic oracles written from the statement over '
+     'generated tuples, dirty prior contents and hand-built byte strings, ASan+UBSan',
+     level_text='Exploration. Generated tuples drive init/set_num_frames on dirty structures; validation, '
+     'encode->decode equality field by field, equal lengths and the stated arithmetic between the size fields are '
+     'checked; accepted hand-built byte strings are decoded and re-encoded and compared byte for byte.',
+     level_note='Sampled tuple space. The decode-first direction covers the header grammars the decoder implements.')
+prop('C14',
+     'fuzz: random strings of 0..128 bytes (half with RIFF/WAVE magic and adversarial fmt sizes), valid headers of six '
+     'kinds unmodified, with one or two size fields replaced by adversarial values (0,1,15..19,39..41,2^31+-1,2^32-k..) '
+     'and the supplied length padded or truncated, or with one bit flipped; every truncation point of accepted '
+     'headers; validate/get_format/tostring on every resulting structure (failed, incomplete, accepted, truncated, '
+     'all-zero). Non-trivial = string that passes the magic checks; distinct by content hash.',
+     [Stage('fuzz', ['harness/wav.c'], WAV, preset='asan', nproc=16,
+            args={'quick': ['--extra', 'fuzz'], 'thorough': ['--extra', 'fuzz']},
+            needs_min={'strings_passing_magic': 100000, 'truncations_decoded': 100000, 'helper_triples_called': 100000}),
+      Stage('fuzz-clang', ['harness/wav.c'], WAV, preset='asan', cc='clang', nproc=16, tiers=('thorough',),
+            args={'thorough': ['--extra', 'fuzz', '--cases', '4000000']})],
+     assumptions=['the reference parser in harness/wav.c walks the chunk grammar the decoder implements with 64-bit '
+                  'offsets; a negative return is always acceptable, a return above the supplied length only for an '
+                  'incomplete header, a return within it only if it is the exact header size and >= 44'],
+     engine='E1', technique='runtime monitoring: independent 64-bit reference parser as oracle for the return value, '
+     'truncation sweep, ASan on exactly-sized inputs, fatal-signal monitor around the helper functions',
+     level_text='Exploration. Hostile and mutated headers in exactly-sized heap blocks are decoded under ASan+UBSan; '
+     'the return value is judged against an independent parser, every truncation of every accepted header is '
+     'decoded, and validate/get_format/tostring are called on whatever structure results with fatal signals '
+     'attributed to the case.',
+     level_note='Sampled input space with adversarial size fields; ILP32 pointer-width effects cannot be run here.')
